@@ -7,6 +7,9 @@ INT_POOL = [-3, 0, 2, 7, 10, 11, 40, 5, 1, 23]
 # lexicographic order differs from numeric order; mixed case; contain "E"/"N"
 STR_POOL = ["a", "B", "10", "2", "E1", "N0", "b", "Z", "Ex", "n"]
 
+# numeric labels that are not all integers (mutually comparable, no two numerically equal)
+FLOAT_POOL = [0, 0.5, 1, 1.5, 4, 2.5, -1.5, 3, 7.25]
+
 ATTRS = ["color", "k", "role", "x"]
 
 
@@ -16,6 +19,21 @@ def universes(draw, min_size=3, max_size=8, kinds=("ints", "strs", "range")):
     if kind == "range":
         n = draw(st.integers(min_size, max_size))
         return {"kind": kind, "labels": list(range(n))}
+    if kind == "floats":
+        # half of the time a "compact" set: N numbers, some of them non-integers, whose range
+        # is exactly N-1 (looks like a contiguous integer range to a careless shortcut)
+        if draw(st.booleans()):
+            n = draw(st.integers(max(3, min_size), max(3, min(max_size, 6))))
+            inner = draw(st.lists(st.sampled_from([0.5, 1.5, 2.5, 3.5, 1, 2, 3, 4]),
+                                  min_size=n - 2, max_size=n - 2, unique=True))
+            inner = [x for x in inner if 0 < x < n - 1]
+            labels = [0] + inner + [n - 1]
+            if any(isinstance(x, float) for x in labels) and len(labels) >= min_size:
+                # the range equals len-1 only if nothing was filtered out
+                return {"kind": kind, "labels": draw(st.permutations(labels))}
+        labels = draw(st.lists(st.sampled_from(FLOAT_POOL), min_size=min_size,
+                               max_size=min(max_size, len(FLOAT_POOL)), unique=True))
+        return {"kind": kind, "labels": labels}
     pool = INT_POOL if kind == "ints" else STR_POOL
     labels = draw(st.lists(st.sampled_from(pool), min_size=min_size,
                            max_size=min(max_size, len(pool)), unique=True))
